@@ -22,6 +22,21 @@ def flushMarks : Bool :=
 /-- a key operation whose marking is read from the table -/
 def tableOp (fn param : String) (k : Key) (e : Eff) : Op := .key ⟨fn, k, marksOf fn param, e⟩
 
+/-- the operation could have been built by the driver from the table: a key operation that reaches no mutating
+    path, or one of a mutating row whose `marks` is the row's fact for one of its key parameters; a flush with the
+    row's `marksAll` -/
+def isTableOp : Op → Bool
+  | .key ko => !ko.eff.reaches ||
+      Gen.storageFns.any (fun f => f.mutates && f.name == ko.fn && f.keyParams.any (fun p => marksOf f.name p == ko.marks))
+  | .flush _ m => m == flushMarks
+
+/-- every operation the event executes comes from the table, and a sweep has the sweeper row's fact -/
+def evFromTable (q : Q) (s : State) (now : Nat) (ev : Ev) : Bool :=
+  (executed q s now ev).all (fun p => isTableOp p.2) &&
+    (match ev with
+     | .sweep _ _ m => m == marksOf "expiration_cleanup_loop" "key"
+     | _ => true)
+
 /-- the watched key `wk` -/
 def kWk : Key := [119, 107]
 /-- another key -/
@@ -73,6 +88,20 @@ def hExpiredAtWatch : List (Nat × Ev) :=
 /-- the deadline (1150) passes between WATCH (1001) and EXEC -/
 def hExpires : List (Nat × Ev) :=
   [(1000, .cmd 1 [tableOp "set_value" "key" kWk (.put ⟨1, some 1150⟩)]), (1001, .watch 0 [kWk]), (1002, .multi 0)]
+
+/-! the same histories with the table rows as they were before the fixes (the function does not mark) -/
+
+def oldOp (fn : String) (k : Key) (e : Eff) : Op := .key ⟨fn, k, false, e⟩
+def hExpireOld : List (Nat × Ev) := oneChange [oldOp "expire" kWk (.put ⟨1, some 600000⟩)]
+def hRenameSrcOld : List (Nat × Ev) := oneChange [oldOp "rename" kWk .del, tableOp "rename" "new_key" kOther (.put ⟨1, none⟩)]
+def hFlushOld : List (Nat × Ev) := oneChange [.flush false false]
+def hFlushAllOld : List (Nat × Ev) := oneChange [.flush true false]
+def hPersistOld : List (Nat × Ev) :=
+  [(1000, .cmd 1 [tableOp "set_value" "key" kWk (.put ⟨1, some 600000⟩)]), (1001, .watch 0 [kWk]),
+   (1002, .cmd 1 [oldOp "persist" kWk (.put ⟨1, none⟩)]), (1003, .multi 0)]
+
+/-- the watch-list switches of the tree after commits 180a098 and 3ed7039, before a purge at WATCH time -/
+def Q.noPurge : Q := ⟨true, true, false⟩
 
 /-- reply of A's EXEC (at time `now`) after the history -/
 def execAfter (q : Q) (h : List (Nat × Ev)) (now : Nat) : Reply :=
